@@ -20,6 +20,10 @@ for prop in props:
     for s in e['coverage']['signatures_observed']:
         key = prop if prop != 'C05' else ('C05f' if 'failed-precompile-call' in s else 'C05r')
         fid, what = rc[key]
+        if prop == 'C04' and 'spend-without-live-grant' in s:
+            fid, what = 'F8', "consequence of F8: an allowance granted by a precompile call inside a frame that was then reverted stays in the authz store and is spent by a later call of the same transaction"
+        if 'random-tree' in s:
+            what = "random call tree (a behaviour of specs/EvmCosmosRand.tla) whose recorded post-state is exactly what the as-built machine of specs/EvmCosmos.tla predicts through its named defect mechanisms; root cause: " + what
         if 'as-built=NO' in s:
             print('NOT LISTED (unexplained):', s)
             continue
